@@ -39,6 +39,7 @@ fn main() {
         ),
         "c12_request_gate" => c12_request_gate(args.get(2).map(|s| s.as_str()).unwrap_or("")),
         "c12_send_order" => c12_send_order(),
+        "c12_field_sequence" => c12_field_sequence(args.get(2).map(|s| s.as_str()).unwrap_or("ab=x,Ab=y")),
         "c10_stale_limit" => c10_stale_limit(),
         "c06_poll_next_spin" => c06_poll_next_spin(),
         "c03_frame_after_trailers" => c03_frame_after_trailers(),
@@ -1547,4 +1548,30 @@ fn c06_poll_next_spin() -> i32 {
             }
         }
     }
+}
+
+
+/// A list of fields "name=value,name=value,.." through the real gate (Header::try_from): it must be accepted iff EVERY name
+/// is a non-empty lower-case token (no pseudo names here) and every value is legal - whatever precedes a field.
+fn c12_field_sequence(list: &str) -> i32 {
+    use h3::proto::headers::Header;
+    use h3::qpack::HeaderField;
+    let pairs: Vec<(Vec<u8>, Vec<u8>)> = list
+        .split(',')
+        .filter_map(|p| p.split_once('='))
+        .map(|(n, v)| (n.as_bytes().to_vec(), v.as_bytes().to_vec()))
+        .collect();
+    let tchar = |b: &u8| b.is_ascii_lowercase() || b.is_ascii_digit() || b"!#$%&'*+-.^_`|~".contains(b);
+    let legal = pairs.iter().all(|(n, v)| !n.is_empty() && n.iter().all(tchar) && v.iter().all(|b| *b == b'\t' || (*b >= 0x20 && *b != 0x7f)));
+    let accepted = Header::try_from(pairs.iter().map(|(n, v)| HeaderField::new(n.clone(), v.clone())).collect::<Vec<_>>()).is_ok();
+    println!("fields {:?}: accepted={} legal={}", list, accepted, legal);
+    if accepted && !legal {
+        println!("REPRODUCED: a field list with an illegal field name or value is accepted");
+        return 1;
+    }
+    if !accepted && legal {
+        println!("REPRODUCED: a legal field list is refused");
+        return 1;
+    }
+    0
 }
